@@ -151,8 +151,18 @@ pub fn rec_text(a: &Args, out: &mut Out) {
             _ => (0..tc.min(70)).map(|_| char::from_u32(r.gen_range(0x10000..0x110000)).unwrap()).collect(),
         };
         if let Some(Message::Msg1029(t)) = &t1029 {
-            let mut t = t.clone();
-            t.text_str = ArrayString::from(s.as_str());
+            let t = match guarded(|| {
+                let mut t = t.clone();
+                t.text_str = ArrayString::from(s.as_str());
+                t
+            }) {
+                Ok(t) => Some(t),
+                Err(p) => {
+                    out.emit(json!({"ev": "TextRt", "number": 1029, "field": "text_str", "cps_in": cps(&s), "stored": [], "out": format!("panic:{}", p)}));
+                    None
+                }
+            };
+            if let Some(t) = t {
             let stored: &str = &t.text_str;
             let stored_cps = cps(stored);
             let m = Message::Msg1029(t.clone());
@@ -175,13 +185,23 @@ pub fn rec_text(a: &Args, out: &mut Out) {
                 Err(p) => e["out"] = json!(format!("panic:{}", p)),
             }
             out.emit(e);
+            }
         }
         // descriptor strings
         let dlen = *pick(&mut r, &[0usize, 1, 30, 31, 32, 40]);
         let ds = gen_string(&mut r, dlen);
-        let desc = Df88591String::<31>::from(ds.as_str());
-        let stored: Vec<u32> = desc.chars().map(|c| c as u32).collect();
         let which = k % 3;
+        let (desc, stored) = match guarded(|| {
+            let desc = Df88591String::<31>::from(ds.as_str());
+            let stored: Vec<u32> = desc.chars().map(|c| c as u32).collect();
+            (desc, stored)
+        }) {
+            Ok(x) => x,
+            Err(p) => {
+                out.emit(json!({"ev": "TextRt", "number": ([1007, 1008, 1033][which]), "field": "descriptor", "cps_in": cps(&ds), "stored": [], "out": format!("panic:{}", p)}));
+                continue;
+            }
+        };
         let m = match which {
             0 => t1007.clone().map(|m| match m {
                 Message::Msg1007(mut t) => {
@@ -242,28 +262,59 @@ pub fn rec_text(a: &Args, out: &mut Out) {
     ];
     let good: Vec<Vec<u8>> = vec![vec![], vec![0x41], "é".as_bytes().to_vec(), "漢字".as_bytes().to_vec(), "\u{10ffff}".as_bytes().to_vec(), "\u{7ff}\u{800}\u{ffff}\u{10000}".as_bytes().to_vec(),
         vec![0xED, 0x9F, 0xBF], vec![0xEE, 0x80, 0x80], vec![0xF4, 0x8F, 0xBF, 0xBF], vec![0xC2, 0x80], vec![0xE0, 0xA0, 0x80], vec![0xF0, 0x90, 0x80, 0x80]];
-    for (cases, _) in [(&bad, "bad"), (&good, "good")] {
+    // random byte strings assembled from UTF-8 fragments (valid and damaged)
+    let mut rnd_cases: Vec<Vec<u8>> = vec![];
+    for _ in 0..(a.num("n", 600) / 6).max(40) {
+        let mut t: Vec<u8> = vec![];
+        for _ in 0..r.gen_range(1..6) {
+            match r.gen_range(0..6) {
+                0 => t.push(r.gen_range(0x20..0x7f)),
+                1 => t.extend(good[r.gen_range(0..good.len())].clone()),
+                2 => t.extend(bad[r.gen_range(0..bad.len())].clone()),
+                3 => {
+                    let mut c = good[r.gen_range(2..good.len())].clone();
+                    let k = r.gen_range(0..c.len());
+                    c[k] ^= 1 << r.gen_range(0..8);
+                    t.extend(c);
+                }
+                4 => t.push(r.gen()),
+                _ => {
+                    if let Some(ch) = char::from_u32(r.gen_range(0x80..0x11_0000)) {
+                        let mut b = [0u8; 4];
+                        t.extend(ch.encode_utf8(&mut b).as_bytes());
+                    }
+                }
+            }
+        }
+        rnd_cases.push(t);
+    }
+    for (cases, _) in [(&bad, "bad"), (&good, "good"), (&rnd_cases, "random")] {
         for c in cases.iter() {
             for (pre, post) in [(0usize, 0usize), (3, 0), (0, 2), (5, 5)] {
                 let mut text: Vec<u8> = vec![b'x'; pre];
                 text.extend(c);
                 text.extend(vec![b'y'; post]);
-                let f = frame_1029(&mut r, (text.len() as u64).min(127), &text, text.len() as u64);
-                let o = match guarded(|| decode_frame(&f)) {
-                    Ok(Some(Message::Msg1029(d))) => {
-                        let ds: &str = &d.text_str;
-                        json!({"dec": "Typed", "cps_dec": cps(ds)})
+                // the character counter (DF138) is independent of the byte counter on the wire: equal to the byte count,
+                // the true character count (lossy for damaged text), zero, maximal
+                let true_chars = String::from_utf8_lossy(&text).chars().count() as u64;
+                for nchars in [(text.len() as u64).min(127), true_chars.min(127), 0, 127] {
+                    let f = frame_1029(&mut r, nchars, &text, text.len() as u64);
+                    let o = match guarded(|| decode_frame(&f)) {
+                        Ok(Some(Message::Msg1029(d))) => {
+                            let ds: &str = &d.text_str;
+                            json!({"dec": "Typed", "cps_dec": cps(ds)})
+                        }
+                        Ok(Some(Message::Corrupt)) => json!({"dec": "Corrupt"}),
+                        Ok(_) => json!({"dec": "Other"}),
+                        Err(p) => json!({"dec": format!("panic:{}", p)}),
+                    };
+                    let mut e = json!({"ev": "Utf8Frame", "text": bytes_json(&text), "nchars": nchars, "frame": bytes_json(&f)});
+                    e["dec"] = o["dec"].clone();
+                    if let Some(c) = o.get("cps_dec") {
+                        e["cps_dec"] = c.clone();
                     }
-                    Ok(Some(Message::Corrupt)) => json!({"dec": "Corrupt"}),
-                    Ok(_) => json!({"dec": "Other"}),
-                    Err(p) => json!({"dec": format!("panic:{}", p)}),
-                };
-                let mut e = json!({"ev": "Utf8Frame", "text": bytes_json(&text), "frame": bytes_json(&f)});
-                e["dec"] = o["dec"].clone();
-                if let Some(c) = o.get("cps_dec") {
-                    e["cps_dec"] = c.clone();
+                    out.emit(e);
                 }
-                out.emit(e);
             }
         }
     }
